@@ -1809,3 +1809,113 @@ Proof.
     exists [(0, 1); (1, ss - 1)]. split; [apply (inv_spans_of _ _ _ _ Hinv)|].
     destruct st0 as [sg0 qs0]. apply (CCpos_huge _ _ _ _ _ Hinv Hk).
 Qed.
+
+(* ------------------------------------------------------------------------------------- *)
+(* commit failure in mi_segments_page_find_and_allocate restores the segment               *)
+(* ------------------------------------------------------------------------------------- *)
+
+Lemma slice_eta (e : slice) a b c : slice_count e = a -> slice_offset e = b -> bsz e = c -> e = mkSlice a b c.
+Proof. destruct e; cbn; intros; subst; reflexivity. Qed.
+
+(* a free span of a valid normal segment: its first and last entry are determined *)
+Lemma free_span_entries U sg qs sps m i c :
+  span_Inv_with U (sg, qs) sps m -> kind sg = SegNormal -> In (i, c) sps -> bsz (get (entries sg) i) = 0 ->
+  get (entries sg) i = mkSlice c 0 0 /\
+  (1 < c -> get (entries sg) (i + c - 1) = mkSlice 0 ((c - 1) * sizeof_mi_slice_t) 0).
+Proof.
+  intros (_ & _ & Hf & Hok & _) Hk Hin Hb. cbn [fst snd] in *. rewrite Forall_forall in Hf, Hok.
+  destruct (Hf _ Hin) as (_ & Hc & Ho). destruct (Hok _ Hin) as (_ & K2 & _ & K4). cbn [fst snd] in *.
+  specialize (K2 Hk). destruct (K4 Hb) as (V1 & V2 & V3 & _). cbv zeta in V1, V2, V3.
+  rewrite N.min_l in V1, V2, V3 by lia.
+  split; [apply slice_eta; assumption|]. intros Hc1. apply slice_eta.
+  - destruct V2 as [V2|V2]; [lia|assumption].
+  - rewrite V1 by (left; assumption). f_equal. lia.
+  - destruct V3 as [V3|(V3 & _)]; [assumption|congruence].
+Qed.
+
+Theorem find_and_allocate_fail_restores sg qs count suit sps m b idx :
+  span_Inv_with (used sg) (sg, qs) sps m -> CCpos (entries sg) sps ->
+  find_span (sg, qs) count suit = Some (b, idx) ->
+  exists st' c, page_find_and_allocate (sg, qs) count suit false = (None, st') /\ In (idx, c) sps /\
+    (* the same spans, the same `used` *)
+    span_Inv_with (used sg) st' sps m /\ used (fst st') = used sg /\
+    (* every entry except the interior ones of the span that was tried *)
+    (forall j, j <= idx \/ idx + c - 1 <= j -> get (entries (fst st')) j = get (entries sg) j) /\
+    (* the queues hold the same spans (the tried span moved to the front of its queue) *)
+    (forall bb, Permutation (q_get (snd st') bb) (q_get qs bb)).
+Proof.
+  intros Hinv Hcc Ef.
+  destruct (find_prepare sg qs count suit sps m b idx Hinv Ef)
+    as (l1 & l2 & c & sg2 & qs2 & Es & Hb0 & Hkc & Hsuit & Hk & Hq & Hb & Hpf & Hraw2 & Hc2 & Hu2 & Hget2 & Hbz2 & Hfr2).
+  set (k := if count =? 0 then 1 else count) in *.
+  destruct (span_free_coalesce_raw (used sg) sg2 qs2 idx k l1 _ m Hraw2 Hc2)
+    as (l1' & l2' & a' & w' & Hres). cbv zeta in Hres.
+  destruct Hres as (R0 & R1 & R2 & R3 & R4 & R5 & R6 & R7 & R8 & R9).
+  set (st' := fst (span_free_coalesce (sg2, qs2) idx)) in *.
+  assert (Hin : In (idx, c) sps) by (rewrite Es; apply in_or_app; right; left; reflexivity).
+  exists st', c. split; [rewrite Hpf; reflexivity|]. split; [assumption|].
+  pose proof Hinv as (Ht & _ & Hf & Hok & _ & _ & _ & _ & _ & Hn & (Q1 & Q2 & Q3 & Q4)). cbn [fst snd] in *.
+  pose proof Ht as Ht0. rewrite Es in Ht0.
+  apply tiles_app in Ht0 as (x & T1 & T2). cbn [tiles] in T2. destruct T2 as (Ex & Hc & T2). subst x.
+  assert (Hidxn : idx + c <= slice_entries sg).
+  { rewrite Forall_forall in Hok. destruct (Hok _ Hin) as (_ & Hx & _). apply Hx. assumption. }
+  assert (Hse2 : slice_entries sg2 = slice_entries sg) by (destruct Hfr2 as (_ & _ & F3 & _); assumption).
+  (* nothing beyond the tried span is merged *)
+  assert (E2 : l2' = l2 /\ a' + w' = idx + c).
+  { unfold split_tail in R5. destruct (k <? c) eqn:Ekc.
+    - apply N.ltb_lt in Ekc. destruct R5 as [(_ & _ & Hb5)|(c2 & E5 & E5' & _)].
+      + rewrite Hbz2 in Hb5 by assumption. rewrite Hse2 in Hb5. lia.
+      + inversion E5; subst. split; [reflexivity|lia].
+    - apply N.ltb_ge in Ekc. assert (k = c) by lia.
+      destruct R5 as [(E5 & E5' & _)|(c2 & E5 & _ & Hb5)]; [split; [assumption|lia]|].
+      exfalso. rewrite Hget2 in Hb5 by lia.
+      assert (Hpos : 0 < bsz (get (entries sg) (idx + c))).
+      { apply (Hcc idx c c2); [assumption| |assumption]. rewrite Es. apply in_or_app. right. right. rewrite E5. left. f_equal. lia. }
+      replace (idx + k) with (idx + c) in Hb5 by lia. lia. }
+  destruct E2 as (El2 & Eaw).
+  assert (E1 : l1' = l1 /\ a' = idx).
+  { destruct R6 as [(E6 & E6' & _)|(cj & E6 & E6' & Hb6)]; [split; assumption|].
+    exfalso.
+    assert (Hcj : 0 < cj). { rewrite E6 in T1. apply tiles_app in T1 as (x & _ & T1). cbn [tiles] in T1. lia. }
+    rewrite Hget2 in Hb6 by lia.
+    assert (Hpos : 0 < bsz (get (entries sg) (a' + cj))).
+    { apply (Hcc a' cj c); [|rewrite E6'; assumption|assumption].
+      rewrite Es, E6. apply in_or_app. left. apply in_or_app. right. left. reflexivity. }
+    rewrite E6' in Hpos. lia. }
+  destruct E1 as (El1 & Ea). subst l1' l2' a'. assert (w' = c) by lia. subst w'. rewrite <- Es in R1.
+  rewrite R2, Hu2 in R1 |- *.
+  split; [assumption|]. split; [reflexivity|].
+  assert (Hk' : kind (fst st') = SegNormal).
+  { destruct R9 as (F1 & _). destruct Hfr2 as (G1 & _). congruence. }
+  assert (Hent : forall j, j <= idx \/ idx + c - 1 <= j -> get (entries (fst st')) j = get (entries sg) j).
+  { intros j Hj.
+    destruct (free_span_entries _ _ _ _ _ _ _ Hinv Hk Hin Hb0) as (A1 & A2).
+    assert (Hinv'' : span_Inv_with (used sg) (fst st', snd st') sps m) by (destruct st'; exact R1).
+    destruct (free_span_entries _ _ _ _ _ _ _ Hinv'' Hk' Hin R8) as (B1 & B2).
+    destruct (N.eq_dec j idx) as [->|Hne]; [congruence|].
+    destruct (N.eq_dec j (idx + c - 1)) as [->|Hne2]; [rewrite A2, B2 by lia; reflexivity|].
+    rewrite R7 by lia. apply Hget2. lia. }
+  split; [assumption|].
+  (* the queues *)
+  pose proof R1 as (_ & _ & Hf' & Hok' & _ & _ & _ & _ & _ & _ & (Q1' & Q2' & Q3' & Q4')).
+  assert (Hqd : queued sg = true).
+  { destruct (queued sg) eqn:E; [reflexivity|]. rewrite (Q4 eq_refl b) in Hq. destruct Hq. }
+  assert (Hqd' : queued (fst st') = true).
+  { rewrite (frame_seg_queued _ _ R9). rewrite (frame_seg_queued _ _ Hfr2). assumption. }
+  assert (Hbsz : forall i ci, In (i, ci) sps -> bsz (get (entries (fst st')) i) = bsz (get (entries sg) i)).
+  { intros i ci Hi. destruct (N.eq_dec i idx) as [->|Hne]; [rewrite R8, Hb0; reflexivity|].
+    rewrite Hent; [reflexivity|].
+    destruct (tiles_disjoint _ _ _ _ _ _ _ Ht Hi Hin) as [[E _]|[Hd|Hd]]; [congruence| |];
+      destruct (tiles_In _ _ _ _ _ Ht Hi) as (_ & _ & Hci); lia. }
+  intros bb. apply NoDup_Permutation; [apply Q2'|apply Q2|]. intros i. split.
+  - intros Hi. destruct (Q3' bb i Hi) as (A1 & A2 & A3).
+    set (ci := slice_count (get (entries (fst st')) i)) in *.
+    rewrite (Hbsz _ _ A2) in A1.
+    rewrite Forall_forall in Hok. destruct (Hok _ A2) as (_ & _ & _ & K4). cbn [fst snd] in K4.
+    destruct (K4 A1) as (_ & _ & _ & V4). rewrite <- A3. apply V4. assumption.
+  - intros Hi. destruct (Q3 bb i Hi) as (A1 & A2 & A3).
+    set (ci := slice_count (get (entries sg) i)) in *.
+    rewrite <- (Hbsz _ _ A2) in A1.
+    rewrite Forall_forall in Hok'. destruct (Hok' _ A2) as (_ & _ & _ & K4). cbn [fst snd] in K4.
+    destruct (K4 A1) as (_ & _ & _ & V4). rewrite <- A3. apply V4. assumption.
+Qed.
